@@ -51,6 +51,15 @@ Theorem C05_epoch_history_matches : forall s, Good s ->
 Proof. intros s G. split; [apply (g_csorted _ G)|split; [apply (g_cbound _ G)|apply (g_cmatch _ G)]]. Qed.
 Print Assumptions C05_epoch_history_matches.
 
+(* A good log is a well-formed log of the in-memory model (C01), with the same records: C01's reader
+   theorem applies to whatever a crash leaves -- an uncommitted reader from any offset returns exactly
+   the recovered records at or above it, in order. *)
+Theorem C05_recovered_log_reads : forall s o, Good s ->
+  wf (log_of s) /\ all_recs (log_of s) = content (s_disk s) /\
+  fst (read_uncommitted (log_of s) o) = filter (ge_off o) (content (s_disk s)).
+Proof. intros s o G. destruct (good_wf s G) as [A B]. split; [exact A|split; [exact B|apply recovered_read; exact G]]. Qed.
+Print Assumptions C05_recovered_log_reads.
+
 (* Operations that complete keep the log good (so the next crash is covered as well). *)
 Theorem C05_completed_operation : forall key_of p, 0 < p_maxb p -> forall s o, Good s -> op_ok s o ->
   exists s', exec key_of fixed p s o = Some s' /\ Good s'.
